@@ -735,7 +735,8 @@ def run(ctx):
     if exe0 is None:
         core.harness_build_failed(ctx, log)
         return finish(ctx)
-    cases = gen(ctx) + gen_composite(ctx, exe0)
+    from vlib import codec_x509, codec_sm9
+    cases = gen(ctx) + gen_composite(ctx, exe0) + codec_x509.gen_x509(ctx) + codec_sm9.gen_sm9(ctx, exe0)
     lines = [c[0] for c in cases]
     mout, _ = core.run_lines(model, lines)
     for v in (["asan"] if ctx.tier == "quick" else ["asan", "fast"]):
